@@ -389,6 +389,174 @@ fn sweep_graph(dir: &Path, idx: usize, g: &Graph, level: u8, spellings: bool) ->
     acc
 }
 
+/// Big instances through both binaries (1000+ arguments, four- and five-digit indexes, 14-character
+/// labels, witness lines of hundreds of members, a 70 KB comment line): every printed witness is
+/// verified directly on the graph, every bare status is compared with the library called in-process.
+pub fn big_instances_messages(thorough: bool) -> Vec<String> {
+    let dir = scratch_dir("c05big_replay");
+    big_instances(&dir, thorough).violations.into_iter().map(|(_, (_, v))| v.message).collect()
+}
+
+fn big_instances(dir: &Path, thorough: bool) -> Acc {
+    use crate::checks::c11::{big_query, family, status_of, Big, BigOut};
+    use crate::universe::{build_usize, Presentation};
+    let cells: Vec<(&str, usize)> = if thorough { vec![("chain", 1000), ("star", 1100), ("mutual_pairs", 1200), ("tree", 1500), ("even_ring", 1030), ("odd_ring", 1025), ("ladder", 1300)] } else { vec![("chain", 1000), ("star", 1100), ("mutual_pairs", 1200)] };
+    let sems = [Sem::GR, Sem::CO, Sem::PR, Sem::ST];
+    let mut tasks: Vec<(usize, bool, QKind, Sem, Option<usize>)> = vec![];
+    for (ci, (fam, size)) in cells.iter().enumerate() {
+        let n = family(fam, *size).n;
+        for apx in [false, true] {
+            for sem in sems {
+                tasks.push((ci, apx, QKind::SE, sem, None));
+                for x in if thorough { vec![0, n / 2, n - 1] } else { vec![n / 2] } {
+                    tasks.push((ci, apx, QKind::DC, sem, Some(x)));
+                    tasks.push((ci, apx, QKind::DS, sem, Some(x)));
+                }
+            }
+        }
+    }
+    let graphs: Vec<Graph> = cells.iter().map(|(f, s)| family(f, *s)).collect();
+    let label = |i: usize| format!("argument_{:05}", i);
+    let files: Vec<(PathBuf, PathBuf)> = graphs
+        .iter()
+        .enumerate()
+        .map(|(ci, g)| {
+            let p1 = dir.join(format!("big{}.af", ci));
+            let p2 = dir.join(format!("big{}.apx", ci));
+            let mut t = crate::universe::iccma_text(g);
+            if ci == 0 {
+                // a comment line of 70 000 bytes right after the header
+                t = t.replacen('\n', &format!("\n# {}\n", "x".repeat(70_000)), 1);
+            }
+            std::fs::write(&p1, t).unwrap();
+            std::fs::write(&p2, crate::universe::apx_text(g, &(0..g.n).map(label).collect::<Vec<_>>())).unwrap();
+            (p1, p2)
+        })
+        .collect();
+    tasks
+        .par_iter()
+        .with_max_len(1)
+        .map(|&(ci, apx, kind, sem, arg)| {
+            let mut acc = Acc::default();
+            let g = &graphs[ci];
+            let big = Big::new(g);
+            let problem = format!("{}-{}", kind.name(), sem.name());
+            let inv = if apx {
+                let mut a = vec!["solve".to_string(), "-f".into(), files[ci].1.display().to_string(), "-r".into(), "apx".into(), "-p".into(), problem.clone(), "--logging-level".into(), "off".into(), "-c".into()];
+                if let Some(x) = arg {
+                    a.extend(["-a".to_string(), label(x)]);
+                }
+                Invocation { bin: bin_solve(), args: a }
+            } else {
+                let mut a = vec!["-f".to_string(), files[ci].0.display().to_string(), "-p".into(), problem.clone()];
+                if let Some(x) = arg {
+                    a.extend(["-a".to_string(), (x + 1).to_string()]);
+                }
+                Invocation { bin: bin_iccma(), args: a }
+            };
+            let r = run(&inv);
+            acc.processes += 1;
+            acc.valid += 1;
+            let mut fail = |what: &str, msg: String| {
+                let shown: String = r.stdout.chars().take(200).collect();
+                acc.add_expect(
+                    format!("big;bin={};problem={};what={}", inv.bin.rsplit('/').next().unwrap(), problem, what),
+                    format!("{}({}) [{}] {:?}: {} (stdout starts {:?}, exit {:?})", cells[ci].0, cells[ci].1, if apx { "apx" } else { "iccma23" }, arg, msg, shown, r.code),
+                    &inv,
+                    &Run { code: r.code, stdout: shown.clone() },
+                    json!({"kind": "big", "family": cells[ci].0, "size": cells[ci].1, "apx": apx, "qkind": kind.name(), "sem": sem.name(), "arg": arg}),
+                );
+            };
+            if r.code != Some(0) {
+                fail("exit_status", "non-zero exit status / no regular exit on a well-formed big instance".into());
+                return acc;
+            }
+            // parse: optional status line, optional witness line, nothing else
+            let mut status: Option<bool> = None;
+            let mut witness: Option<Vec<usize>> = None;
+            for l in r.stdout.lines() {
+                match classify_line(l, !apx) {
+                    AnsLine::Status(b) if status.is_none() && witness.is_none() => status = Some(b),
+                    AnsLine::Witness(ls) if witness.is_none() => {
+                        let mut idx = vec![];
+                        for t in ls {
+                            let v = if apx { t.strip_prefix("argument_").and_then(|d| d.parse::<usize>().ok()) } else { t.parse::<usize>().ok().and_then(|v| v.checked_sub(1)) };
+                            match v {
+                                Some(i) if i < g.n => idx.push(i),
+                                _ => {
+                                    fail("witness_member", format!("witness member {:?} is not an argument of the instance", t));
+                                    return acc;
+                                }
+                            }
+                        }
+                        let mut d = idx.clone();
+                        d.sort();
+                        d.dedup();
+                        if d.len() != idx.len() {
+                            fail("witness_duplicate", "an argument is listed twice".into());
+                            return acc;
+                        }
+                        witness = Some(idx);
+                    }
+                    _ => {
+                        fail("stdout_shape", format!("unexpected line {:?}", l.chars().take(80).collect::<String>()));
+                        return acc;
+                    }
+                }
+            }
+            let is_ext = |s: &[bool]| match sem {
+                Sem::GR => *s == big.grounded()[..],
+                Sem::ST => big.stable(s),
+                _ => big.complete(s), // CO; PR: a complete extension is what can be verified directly
+            };
+            // the library, in-process, on the same graph built through the API
+            let b = build_usize(g, Presentation::Compact);
+            let lib = big_query(&b, kind, sem, arg, false);
+            let lib_status = status_of(&lib);
+            if matches!(lib, BigOut::Panic(_)) {
+                return acc; // the library's own behaviour at this size is C11's subject
+            }
+            match kind {
+                QKind::SE => match (&witness, status) {
+                    (Some(w), None) => {
+                        if !is_ext(&big.set(w)) {
+                            fail("witness_invalid", format!("the printed set of {} arguments is not a {} extension", w.len(), sem.name()));
+                        }
+                    }
+                    (None, Some(false)) => {
+                        if lib_status != Some(false) {
+                            fail("status_differs", "NO printed, the library finds an extension".into());
+                        }
+                    }
+                    _ => fail("stdout_shape", "expected one witness line or NO".into()),
+                },
+                _ => match status {
+                    None => fail("stdout_shape", "no status line".into()),
+                    Some(st) => {
+                        if Some(st) != lib_status {
+                            fail("status_differs", format!("printed {}, the library answers {:?}", if st { "YES" } else { "NO" }, lib_status));
+                        }
+                        let promised = (kind == QKind::DC) == st;
+                        match (&witness, promised) {
+                            (Some(w), true) => {
+                                let s = big.set(w);
+                                let x = arg.unwrap();
+                                if !is_ext(&s) || s[x] != (kind == QKind::DC) {
+                                    fail("witness_invalid", format!("the certificate of {} arguments is not a {} extension {} the queried argument", w.len(), sem.name(), if kind == QKind::DC { "containing" } else { "omitting" }));
+                                }
+                            }
+                            (None, true) => fail("certificate_missing", "no certificate where one is promised".into()),
+                            (Some(_), false) => fail("certificate_unexpected", "a certificate where none is due".into()),
+                            (None, false) => {}
+                        }
+                    }
+                },
+            }
+            acc
+        })
+        .reduce(Acc::default, Acc::merge)
+}
+
 fn malformed_invocations(dir: &Path) -> Vec<(String, Invocation)> {
     let g = Graph::new(2, &[(0, 1)]);
     let (good_af, good_apx) = write_instances(dir, 9000, &g);
@@ -559,6 +727,10 @@ pub fn run_check(tier: Tier) -> i32 {
     let n_graphs = tasks.len();
     let acc = tasks.par_iter().with_max_len(1).map(|(i, g, level, spell)| sweep_graph(&dir, *i, g, *level, *spell)).reduce(Acc::default, Acc::merge);
     let mut total = acc;
+    // big instances
+    let bacc = big_instances(&dir, thorough);
+    let n_big = bacc.processes;
+    total = total.merge(bacc);
     // malformed invocations
     let mal = malformed_invocations(&dir);
     let n_mal_classes = mal.iter().map(|(c, _)| c.clone()).collect::<std::collections::BTreeSet<_>>().len();
@@ -616,7 +788,7 @@ pub fn run_check(tier: Tier) -> i32 {
     rep.traces = total.processes;
     rep.evaluations = total.processes;
     rep.distinct_nontrivial = total.outcomes.len() as u64 + n_mal_classes as u64;
-    rep.extra.insert("space".into(), json!({"graphs": n_graphs, "processes": total.processes, "valid_invocations": total.valid, "malformed_invocations": total.malformed, "malformed_classes": n_mal_classes, "distinct_answer_texts": total.outcomes.len()}));
+    rep.extra.insert("space".into(), json!({"graphs": n_graphs, "processes": total.processes, "valid_invocations": total.valid, "malformed_invocations": total.malformed, "malformed_classes": n_mal_classes, "big_instance_processes": n_big, "distinct_answer_texts": total.outcomes.len()}));
     for s in total.sample {
         rep.add_sample(s);
     }
